@@ -30,6 +30,6 @@ def run(tier, a=None):
             else: res.errors.append({'what': 'asan run failed', 'diag': r.stderr[-1500:]})
     res.extra['asan_runs'] = asan_runs
     runner.write_evidence(res, 'proof',
-        'Every operation executed through Eigen::Map / Eigen::Map<const> views placed inside poisoned buffers yields the same recorded computation (same DAG nodes / canonical forms) as with owning operands, on every enumerated path; after every write through a mutable view (assignment families, setIdentity, +=, *=, coefficient write, tangent setZero/+=/-=/*=) exactly the RepSize resp. DoF viewed cells changed and every guard cell still holds its poison symbol; no result depends on a poison symbol. The same run is repeated under AddressSanitizer. Memory access patterns do not depend on values, so one symbolic run per path covers all inputs.',
+        'Every operation executed through Eigen::Map / Eigen::Map<const> views placed inside poisoned buffers yields the same recorded computation (same DAG nodes / canonical forms) as with owning operands, on every enumerated path; after every write through a mutable view (assignment families incl. copy- and move-assignment between two mutable views, after which later writes still land in the own buffer of the destination and the source buffer is untouched; setIdentity, +=, *=, coefficient write, tangent setZero/+=/-=/*=) exactly the RepSize resp. DoF viewed cells changed and every guard cell still holds its poison symbol; no result depends on a poison symbol. The same run is repeated under AddressSanitizer. Memory access patterns do not depend on values, so one symbolic run per path covers all inputs.',
         ASSUME, 'python3-vt /verif/check.py C10 --tier %s' % tier, TRUSTED + ['AddressSanitizer (clang/gcc runtime) for accesses outside the buffer object'])
     return runner.conclude(res)
